@@ -465,6 +465,10 @@ func parseTraversalStep(nativeStep hcl.Traverser, from inputTokens) (before inpu
 			key := newNumber(valToken)
 			step.key = children.Append(key)
 			children.AppendUnstructuredTokens(valAfter.Tokens())
+		default:
+			// Keys of other types (true, false, null) have no dedicated
+			// node type, so we just retain their tokens verbatim.
+			step.key = children.AppendUnstructuredTokens(keyTokens.Tokens())
 		}
 
 		children.AppendUnstructuredTokens(cBrack.Tokens())
